@@ -358,6 +358,15 @@ where
         Ok(())
     }
 
+    /// Verification hook (only with `--cfg poster_verif`): records that the previous connection
+    /// was lost `secs_ago` seconds ago, which production code never does.
+    ///
+    #[cfg(poster_verif)]
+    pub fn verif_mark_disconnected(&mut self, secs_ago: u64) {
+        self.connection.disconnection_timestamp =
+            Some(SystemTime::now() - std::time::Duration::from_secs(secs_ago));
+    }
+
     /// Creates a new [Context] instance, paired with [ContextHandle].
     ///
     pub fn new() -> (Self, ContextHandle) {
